@@ -7,9 +7,11 @@ CONSTANTS
   L = 6
   MaxRefresh = 3
   MaxNow = 4
-  IPSets = {{}}
-  AppVals = {0, -1}
+  IPSets <- NoIPs
+  AppVals <- App2
   Rich = FALSE
+  Sim = FALSE
+  Warm = 0
 INVARIANT P_C10_Bounds
 INVARIANT P_C10_PenaltiesOnlyLower
 INVARIANT P_C10_Forgotten
